@@ -462,6 +462,8 @@ class MultiIndexBackend(DataFrameSchemaBackend):
         :returns: validated DataFrame or Series.
         """
         if schema.coerce:
+            if not inplace:
+                check_obj = check_obj.copy()
             check_obj.index = self.__coerce_index(check_obj, schema, lazy)
 
         # Prevent data type coercion when the validate method is called because
